@@ -143,9 +143,11 @@ let kind_of = function
   | MAttrsChanged _ -> "AttrsValueChanged" | MAttrsChangedMasked _ -> "AttrsValueChangedMasked"
   | MFleetFitAdded -> "FleetFitAdded" | MFleetFitRemoved -> "FleetFitRemoved"
   | MDefaultDmgChanged -> "DefaultIncomingDmgChanged" | MRahDmgChanged -> "RahIncomingDmgChanged"
+let spec_memo = ref []
 let do_step o =
   let (w, r) = step !world o in
   world := w;
+  (match o with ORead _ | OGet _ | OKeys _ | OEffects _ -> () | _ -> spec_memo := []);
   List.iter (fun (_, m) -> bump (kind_of m) 1) w.s_d.d_trace;
   (match o with ORead _ | OGet _ | OKeys _ | OEffects _ -> () | _ ->
      (* invalidations: cached entries that disappeared are visible through AttrsValueChanged *)
@@ -154,8 +156,8 @@ let do_step o =
 
 let handle toks =
   match toks with
-  | "pen" :: qs -> pen := List.map q_of_string qs; world := init_sys !pen; Hashtbl.reset ubs; "ok"
-  | ["reset"] -> world := init_sys !pen; Hashtbl.reset ubs; "ok"
+  | "pen" :: qs -> pen := List.map q_of_string qs; world := init_sys !pen; spec_memo := []; Hashtbl.reset ubs; "ok"
+  | ["reset"] -> world := init_sys !pen; spec_memo := []; Hashtbl.reset ubs; "ok"
   | ["u_attr"; src; aid; d; hig; st; mx] ->
     let u = ub (int_of_string src) in
     u.attrs <- u.attrs @ [(zi aid, { am_default = oq d; am_hig = b hig; am_stackable = b st; am_max = oz mx })]; "ok"
@@ -223,6 +225,12 @@ let handle toks =
   | ["get"; i; a] -> do_step (OGet (ni i, zi a))
   | ["keys"; i] -> do_step (OKeys (ni i))
   | ["effects"; i] -> do_step (OEffects (ni i))
+  | ["spec"; i; a] ->
+    let (mm, v) = spec_val (!world).s_d.d_pen (nat_of_int 60) (!world).s_w !spec_memo (ni i) (zi a) in
+    spec_memo := mm;
+    (match v with
+     | Some v -> "val " ^ string_of_q v
+     | None -> "none")
   | ["item"; i] -> item_s !world i
   | ["fitdump"; f] -> fit_s !world f
   | ["regs"; s] -> regs_s !world s
